@@ -1461,6 +1461,11 @@ def format_eq_hyp(ck, nl, cases):
         ck.broken_tie('format_eq: fragment', f'commonNlB={common_} but the generator put wide gate: {wide}, constant operand: {const}', inp=inp); return
     if not common_: return
     ck.hist[f'format-eq-hyp:closedNlB={int(closed)}'] += 1
+    try:        # the fragment of the Verilog rendering WITH branch forks (hypothesis of `bench_verilog_sim_equiv`, not derived)
+        a1 = common.run_driver([f"nlequiv 1{int(fix)}{int(one)} {ptok} {gtok} ~"])[0].split(' ')
+        ck.hist[f"format-eq-hyp:verilogOKB(branchforks)={dict(x.split('=') for x in a1[:5])['vok']}"] += 1
+    except Exception as ex:
+        ck.broken_tie('format_eq: driver', f'{type(ex).__name__}: {ex}'[:300], inp=inp); return
     ck.hist[f'format-eq-hyp:benchOKB={int(bok)},verilogOKB={int(vok)}'] += 1
     if not closed:      # every generated operand is driven and no generated name looks like a constant bit
         ck.broken_tie('format_eq: fragment', f'closedNlB is false for a generated netlist: {" ".join(ans[:5])}', inp=inp); return
